@@ -49,8 +49,9 @@ MODELLED_NOT_VERIFIED = [
     "and annotation objects (not in the statement); node ages are checked by the oracle only (not modelled)",
     "C05: the hypotheses of the majority-rule theorems are derived for the driver's records of well-formed ROOTED trees (treeRecOf_rooted_hts) "
     "and of well-formed not-rooted trees whose ENCODED seed has >= 3 children (treeRecOf_unrooted_hts: every drawing outside the known-finding "
-    "class 'basal bifurcation survives'); Good (toH t) = distinct leaf taxa is assumed, not derived from the parser; SplitDistribution.update "
-    "(merge) is not an event of the cache model (oracle op `merge` only)",
+    "class 'basal bifurcation survives'); Good (toH t) = distinct leaf taxa is assumed, not derived from the parser; SplitDistribution.update IS an event of "
+    "the cache model (`Ev.merge`, frequencies proved = counting the concatenation); that the merged VALUE LISTS and key order equal those of "
+    "sequential counting is correspondence only (`hist` summaries after merges)",
 ]
 EXPLANATION = ("Theorems (all about the definitions the driver runs): frequency = weighted count / normaliser, 0 for absent splits; "
                "majority_consensus_reaches/_exact: rooted samples, threshold > 1/2 -> the consensus clades are exactly the star's plus the "
@@ -63,8 +64,10 @@ EXPLANATION = ("Theorems (all about the definitions the driver runs): frequency 
                "collapse_removes_exactly (the internal nodes left are exactly those with frequency >= threshold, root-to-tip kept); "
                "stats_spec (mean, median/min/max off a sorted permutation, sample variance); argmaxFirst_spec; "
                "majority_consensus_unrooted_reaches/_exact (not-rooted records: normalised splits, prep's complement handling); "
-               "freq_never_stale (over every history of additions / frequency queries / summary queries / age-table reads — merges are not "
-               "events of the model — the cached tables answer as if recomputed from all trees counted so far); lengths_spec (the summarised "
+               "freq_never_stale (over every history of additions / merges through update / refused offers / frequency queries / summary "
+               "queries / age-table reads the cached tables answer as if recomputed from the current counts) + merge_freq_spec (a "
+               "distribution that counted ts1 and is updated from one that counted ts2 reports the frequencies, tree count and weight sum of "
+               "one that counted ts1 ++ ts2); lengths_spec (the summarised "
                "list of a split is exactly its values over the counted records, in order); freq_weighted_contains (Nodup records: weighted "
                "fraction of the trees containing the split); majority_consensus_reaches_ns + driver_majority_exact (namespaces with removed "
                "members: all only has to contain the members' bits; composed with treeRecOf, countAll and the driver's own rooting flag; "
@@ -1358,7 +1361,9 @@ def gen_incremental(ctx, dendropy):
                for _ in range(rng.randint(0, 4))] for _ in range(len(cuts) + 1)]
     if rng.random() < 0.7:
         script[-1].append(["summarize", rng.randrange(1 << 16), {}])
-    return dict(sample_case(tns, trees, use_w, None, False), op="incremental", cuts=cuts, script=script)
+    # some batches do not come in tree by tree but through `update` from another array that counted them (event `M` of the cache model)
+    merges = [rng.random() < 0.35 for _ in range(len(cuts) + 1)]
+    return dict(sample_case(tns, trees, use_w, None, False), op="incremental", cuts=cuts, script=script, merge_batches=merges)
 
 
 def run_incremental(ctx, dendropy, case, pending=None):
@@ -1434,14 +1439,25 @@ def annotation_problem(tree, fr, per_split, opts, what, untouched=None):
 
 def _run_incremental(ctx, dendropy, case, tns, trees, use_w, batches, script, ta, seen, events, ask_freq, ask_summ):
     rec_of = {id(t): r for t, r in zip(trees, case["trees"])}
-    for batch, queries in zip(batches, script):
+    merges = list(case.get("merge_batches") or []) + [False] * len(batches)
+    for bi, (batch, queries) in enumerate(zip(batches, script)):
+        other = dendropy.TreeArray(taxon_namespace=tns, use_tree_weights=use_w) if merges[bi] else None
+        toks = []
         for t in batch:
             c = c04.clone(dendropy, t)
             c.weight = t.weight
-            ta.add_tree(c)
+            (other if other is not None else ta).add_tree(c)
             seen.append(t)
             r = rec_of[id(t)]
-            events.append("A %s %s %s" % (r["rooted"], "N" if r["weight"] is None else r["weight"], " ".join(r["tree"])))
+            tok = "%s %s %s" % (r["rooted"], "N" if r["weight"] is None else r["weight"], " ".join(r["tree"]))
+            if other is None:
+                events.append("A " + tok)
+            else:
+                toks.append(tok)
+        if other is not None:
+            ta.update(other)
+            ctx.count("incremental: batch merged in through update")
+            events.append("M %d %s" % (len(toks), " ".join(toks)))
         fr, _ = oracle_freqs(seen, use_w)
         per_split = {}
         for t in seen:
